@@ -5,7 +5,7 @@
     endpoint.go.  NOT modelled: gorilla/mux beyond exact first-match on the path (path cleaning, templates with braces),
     the XML of the document (C18), the cryptographic use of the certificate (C04). *)
 From Saml Require Import Xml.SchemaTypes Xml.Schema Gen.Schema Xml.SamlSpec.
-From Saml Require Import Base.Bytes Idp.FactTypes Gen.Facts Gen.Pure Idp.Sso Idp.Router Proofs.SsoProofs Proofs.SsoAccept Proofs.SsoLiveness Idp.BuilderTypes Idp.Builder Idp.BuiltDoc Core.Destination Idp.CheckedLocs.
+From Saml Require Import Base.Bytes Idp.FactTypes Gen.Facts Gen.Pure Idp.Sso Idp.Router Proofs.SsoProofs Proofs.SsoAccept Proofs.SsoLiveness Idp.BuilderTypes Idp.Builder Idp.BuiltDoc Core.Destination Idp.CheckedLocs Core.UrlPath Idp.AdvertisedPath.
 From Coq Require Import List. Import ListNotations.
 
 (** the model's routes / advertised locations / entity ID are what the current source says *)
@@ -158,6 +158,44 @@ Proof.
   exists f, a. split; [exact E1|split; [exact E2|]]. destruct Hd as [Hd|[Hd|[Hd|[]]]]; auto.
 Qed.
 
+(** THE SERVED DOCUMENT = THE ROUTER MODEL: with the builders' oracles given the values the router model interprets from the source
+    (the endpoints' Absolute(issuer) URLs, the entity ID), the document's five service locations are, in document order, the
+    model's advertised list -- to which C11_routes / C11_external / C11_checked_is_advertised apply -- and its entityID is the
+    model's entity ID (C11_entity_id), for every configuration and issuer *)
+Theorem C11_document_is_router_model : forall cfg issuer want enc cache errurl cert valid id1 id2 id3 (org contact : bool),
+  let ic := idp_conf want enc cache errurl in
+  let conf := DObj "provider.Config" [("IDPConfig"%string, ic);
+                ("Organisation"%string, if org then DObj "provider.Organisation" [("Name"%string, DStr (b "n")); ("DisplayName"%string, DStr (b "d")); ("URL"%string, DStr (b "u"))] else DNil);
+                ("ContactPerson"%string, if contact then DObj "provider.ContactPerson" [("ContactType"%string, DStr (b "technical")); ("Company"%string, DStr (b "c")); ("GivenName"%string, DStr (b "g"));
+                                                    ("SurName"%string, DStr (b "s")); ("EmailAddress"%string, DStr (b "e")); ("TelephoneNumber"%string, DStr (b "t"))] else DNil)] in
+  md_sat (md_oracles (entity_id cfg issuer) issuer cert (Endpoint_Absolute (c_sso cfg) issuer) (Endpoint_Absolute (c_slo cfg) issuer) (Endpoint_Absolute (c_attr cfg) issuer) valid)
+    conf (DObj "provider.IdentityProvider" [("conf"%string, ic); ("TimeFormat"%string, DStr (b "f"))]) [id1; id2; id3]
+    (fun d => at_ d ["EntityID"%string] = Some (DStr (entity_id cfg issuer)) /\
+              doc_locations d = map (fun p => Some (DStr (snd p))) (advertised cfg issuer)).
+Proof. exact document_is_router_model. Qed.
+
+(** ADVERTISED LOCATIONS AS REQUEST PATHS.  For an issuer scheme "://" host prefix (prefix: the issuer's own path, possibly empty; a
+    trailing "/" is dropped), the path component of an advertised, path-configured location -- what a request for that URL presents
+    to a router -- is the prefix followed by the route of the corresponding handler; for an issuer without a path of its own it IS
+    a route this provider serves with that handler.  (With a path in the issuer the deployment has to strip it: the provider's
+    router serves the Relative() paths; the harness does the same when it requests advertised locations.) *)
+Theorem C11_advertised_request_path : forall cfg issuer scheme host prefix,
+  NoDup (map fst (routes cfg)) ->
+  go_trim_suffix issuer (b "/") = scheme ++ b "://" ++ host ++ prefix ->
+  none_of [":"%char] scheme = true -> none_of ["/"%char; "?"%char; "#"%char] host = true ->
+  (prefix = [] \/ exists r, prefix = "/"%char :: r) -> none_of ["?"%char; "#"%char] prefix = true ->
+  forall s u, In (s, u) (advertised cfg issuer) -> Endpoint_url (endpoint_of cfg s) = [] ->
+    none_of ["?"%char; "#"%char] (Endpoint_Relative (endpoint_of cfg s)) = true ->
+    url_path u = prefix ++ Endpoint_Relative (endpoint_of cfg s) /\
+    lookup (Endpoint_Relative (endpoint_of cfg s)) (routes cfg) = Some (handler_for s) /\
+    (prefix = [] -> lookup (url_path u) (routes cfg) = Some (handler_for s)).
+Proof. exact advertised_url_path. Qed.
+Example C11_request_path_example :
+  let cfg := effective {| k_metadata := None; k_cert := None; k_callback := None; k_sso := None; k_slo := None; k_attr := None |} in
+  lookup (url_path (Endpoint_Absolute (c_sso cfg) (b "https://idp.example:8443/"))) (routes cfg) = Some HSSO /\
+  url_path (Endpoint_Absolute (c_attr cfg) (b "https://idp.example/saml")) = b "/saml" ++ Endpoint_Relative (c_attr cfg).
+Proof. split; vm_compute; reflexivity. Qed.
+
 Print Assumptions C11_from_source.
 Print Assumptions C11_entity_id.
 Print Assumptions C11_routes.
@@ -171,3 +209,5 @@ Print Assumptions C11_checked_value_from_source.
 Print Assumptions C11_destination_checks_from_source.
 Print Assumptions C11_checked_is_advertised.
 Print Assumptions C11_accepted_destination.
+Print Assumptions C11_document_is_router_model.
+Print Assumptions C11_advertised_request_path.
